@@ -4,10 +4,10 @@ use crate::{
     model::{
         TryFromNode,
         field::{as_field_name, resolve_type},
+        structures::{as_rust_identifier, xml_name_to_rust_name},
     },
     reader::WriteXml,
 };
-use inflector::cases::pascalcase::to_pascal_case;
 use reqwest::Url;
 use std::{io, rc::Rc};
 
@@ -65,14 +65,15 @@ where
 {
     fn write_xml(&self, writer: &mut W) -> WriterResult<()> {
         // create a wrapping Rust struct for the service
-        writeln!(writer, "pub struct {} {{", self.name)?;
+        let service_name = as_rust_identifier(&self.name);
+        writeln!(writer, "pub struct {service_name} {{")?;
         writeln!(writer, "    pub client: reqwest::Client,")?;
         writeln!(writer, "    pub location: String,")?;
         writeln!(writer, "    pub credentials: Option<(String, String)>,")?;
         writeln!(writer, "}}")?;
 
         // create an implementation for the service
-        writeln!(writer, "impl {} {{", self.name)?;
+        writeln!(writer, "impl {service_name} {{")?;
         writeln!(
             writer,
             "    pub fn new(credentials: Option<(String, String)>) -> Self {{"
@@ -102,7 +103,7 @@ where
     // generate an async fn for the operation
     let rust_fn_name = as_field_name(operation_name);
     // the envelope types are declared under the PascalCase name of the operation
-    let operation_name = to_pascal_case(operation_name);
+    let operation_name = xml_name_to_rust_name(operation_name);
     let request_name = format!("{operation_name}InputEnvelope");
     let response_name = operation
         .output
